@@ -183,3 +183,13 @@ type CfgPV struct {
 }
 
 func (CfgPV) Prefix() string { return "sim.sub" }
+
+// CfgPD is a configuration holder whose prefix is a matter of the instance: the application
+// creates it with the section it belongs to (pointer-receiver Prefix()).
+type CfgPD struct {
+	Section string
+	A       int    `yaml:"a"`
+	B       string `yaml:"b"`
+}
+
+func (c *CfgPD) Prefix() string { return c.Section }
